@@ -239,6 +239,7 @@ func c11RunE2E(t *testing.T, lane string, alt bool, n int, rule string) {
 		}
 		m := r.Intn(limit + 2) // 0 .. limit+1 redirects scripted
 		auths := []string{a0.render()}
+		c11AuthOf := map[string]c11Auth{a0.render(): a0}
 		for len(auths) < m+1 {
 			var b c11Auth
 			switch r.Intn(4) {
@@ -248,6 +249,7 @@ func c11RunE2E(t *testing.T, lane string, alt bool, n int, rule string) {
 				b = vary(a0)
 			}
 			auths = append(auths, b.render())
+			c11AuthOf[b.render()] = b
 		}
 		reuse := prevCl != nil && r.Intn(2) == 0
 		// if the chain would not get anywhere because of an allowed-list, sometimes add the hosts
@@ -324,6 +326,41 @@ func c11RunE2E(t *testing.T, lane string, alt bool, n int, rule string) {
 		for _, kv := range ih {
 			rq.Headers[kv[0]] = append(rq.Headers[kv[0]], kv[1])
 		}
+		// Host header override (request level or as a common header of the client): what the origin
+		// reads in Host / :authority changes, NOT which host the request was addressed to. The
+		// override names a relative of a later hop (the host a redirect will point to), of the first
+		// host, or an unrelated authority. Locations are absolute here, so net/http drops the override
+		// after the first request; the model line does not mention it at all.
+		commonHost, hostNote := false, ""
+		if r.Intn(3) == 0 {
+			var ov c11Auth
+			switch k := r.Intn(4); {
+			case k < 2 && len(auths) > 1:
+				ov = vary(c11AuthOf[auths[1+r.Intn(len(auths)-1)]])
+			case k == 2:
+				ov = vary(a0)
+			default:
+				ov = gen()
+			}
+			if r.Intn(4) == 0 && len(auths) > 1 {
+				ov = c11AuthOf[auths[1]]
+			}
+			if r.Intn(2) == 0 {
+				rq.Headers["Host"] = []string{ov.render()}
+				s.Count("host-override:request")
+			} else {
+				cl.SetCommonHeader("Host", ov.render())
+				commonHost = true
+				s.Count("host-override:client")
+			}
+			hostNote = " Host-override=" + ov.render()
+			if commonHost {
+				hostNote += "(common header)"
+			}
+			if len(auths) > 1 && c11OracleHostOf(ov.render()) == c11OracleHostOf(auths[1]) && c11OracleHostOf(auths[0]) != c11OracleHostOf(auths[1]) {
+				s.Count("host-override=next-hop-host")
+			}
+		}
 		altHosts := map[string]bool{}
 		if alt {
 			jar := cl.Transport.altSvcJar
@@ -335,7 +372,8 @@ func c11RunE2E(t *testing.T, lane string, alt bool, n int, rule string) {
 					}
 					as := &altsvc.AltSvc{Protocol: "h2", Expire: time.Now().Add(time.Hour)}
 					kind := r.Intn(4)
-					if kind == 0 && strings.HasSuffix(a, "]") {
+					if kind == 0 && strings.HasPrefix(a, "[") {
+						// (any bracketed origin: the jar key of "[::2]:443" is also the key of "[::2]")
 						// not generated: for a port-less bracketed IPv6 origin altsvcutil.ConvertURL
 						// builds "[[::2]]:port" (JoinHostPort of an already bracketed host) and the
 						// request fails before anything is sent - an availability defect of the
@@ -361,7 +399,34 @@ func c11RunE2E(t *testing.T, lane string, alt bool, n int, rule string) {
 				}
 			}
 		}
+		// what the policies are shown: the installed closure is wrapped for the duration of the call and
+		// every (req, via) it is asked about is recorded — URL.Host of each LIVE request object, so a
+		// transport (Alt-Svc carrier, HTTP/2, …) rewriting a request in flight shows up on any hop
+		type c11Asked struct {
+			req string
+			via []string
+		}
+		var asked []c11Asked
+		origCheck := cl.httpClient.CheckRedirect
+		cl.httpClient.CheckRedirect = func(q *http.Request, via []*http.Request) error {
+			a := c11Asked{req: q.URL.Host}
+			for _, v := range via {
+				a.via = append(a.via, v.URL.Host)
+			}
+			asked = append(asked, a)
+			if origCheck == nil {
+				if len(via) >= 10 {
+					return fmt.Errorf("stopped after 10 redirects")
+				}
+				return nil
+			}
+			return origCheck(q, via)
+		}
 		resp, err := rq.Get(farm.scheme + "://" + c11URLHost(auths[0]) + "/0")
+		cl.httpClient.CheckRedirect = origCheck
+		if commonHost {
+			cl.Headers.Del("Host")
+		}
 		// what the policies see as via[0] is the URL the client built: parseRequestURL drops an
 		// empty port from the first URL (and nothing else); after the call the request must still
 		// name that origin — nothing below the client may rewrite the URL of a request in flight
@@ -434,8 +499,21 @@ func c11RunE2E(t *testing.T, lane string, alt bool, n int, rule string) {
 		if urlRewritten != "" {
 			ok = false
 		}
-		detail := ""
-		if !ok {
+		viaNote := ""
+		for k, a := range asked {
+			// the k-th question is about hop k+1 and shows exactly the authorities of hops 0..k, as the
+			// caller / the Location headers wrote them
+			if k+1 >= len(auths) || a.req != auths[k+1] || strings.Join(a.via, ",") != strings.Join(auths[:k+1], ",") {
+				ok = false
+				viaNote = fmt.Sprintf("CheckRedirect call %d was shown req=%s via=%v, the chain is %v", k+1, a.req, a.via, auths)
+				break
+			}
+		}
+		if len(asked) > 0 {
+			s.Count("checkredirect-observed")
+		}
+		detail := viaNote
+		if !ok && detail == "" {
 			detail = fmt.Sprintf("requests received %d, oracle allows %d, dials %d", len(recs), want, len(dials))
 		}
 		// every connection went to the hostname of the hop it was for
@@ -508,7 +586,7 @@ func c11RunE2E(t *testing.T, lane string, alt bool, n int, rule string) {
 		if stripped {
 			s.Count("cross-origin-strip")
 		}
-		human := scen + c11ShowPols(ps) + " chain=" + strings.Join(auths, " -> ") + " => " + outcome + " received=" + strconv.Itoa(len(recs))
+		human := scen + c11ShowPols(ps) + hostNote + " chain=" + strings.Join(auths, " -> ") + " => " + outcome + " received=" + strconv.Itoa(len(recs))
 		if urlRewritten != "" {
 			detail = "URL.Host of the original request was rewritten to " + urlRewritten + " " + detail
 		}
@@ -519,7 +597,8 @@ func c11RunE2E(t *testing.T, lane string, alt bool, n int, rule string) {
 			c11EncHeaders(ih) + " " + verifh.HexList(probes)
 		s.Case(line, ans, ok, class, m > 0, human)
 	}
-	must := []string{"direct", "reused-client", "family:original", "family:set-on-clone", "family:clone-of-clone-inherits", "family:clone-inherits,parent-reconfigured-later", "family:clone-inherits", "outcome:final", "outcome:refused", "outcome:last", "cross-origin-strip", "pol:copy", "pol:samehost", "pol:samedomain", "pol:ahost", "pol:adomain", "pol:no", "pol:nil", "pol:max", "hops-scripted:0", "hops-scripted:3", "host0-normalised-by-client"}
+	must := []string{"direct", "reused-client", "family:original", "family:set-on-clone", "family:clone-of-clone-inherits", "family:clone-inherits,parent-reconfigured-later", "family:clone-inherits", "outcome:final", "outcome:refused", "outcome:last", "cross-origin-strip", "pol:copy", "pol:samehost", "pol:samedomain", "pol:ahost", "pol:adomain", "pol:no", "pol:nil", "pol:max", "hops-scripted:0", "hops-scripted:3", "host0-normalised-by-client",
+		"host-override:request", "host-override:client", "host-override=next-hop-host", "checkredirect-observed"}
 	if alt {
 		must = append(must, "altsvc-entry", "altsvc-entry-for-first-origin", "request-carried-by-alternative")
 	}
